@@ -230,3 +230,89 @@ pub fn check_c03(tier: Tier) -> i32 {
     );
     verdict.exit
 }
+
+pub fn check_c17(tier: Tier) -> i32 {
+    let t0 = Instant::now();
+    let seed = orch::seed_from_env();
+    let e = orch::engine("session-sim").unwrap();
+    let count = (e.scenarios)(tier);
+    println!(
+        "C17 session-sim: seed {} tier {} scenarios {} ({} directed, {} enumerated, rest random)",
+        seed,
+        tier.name(),
+        count,
+        crate::engine_session::DIRECTED,
+        crate::engine_session::enumerated_count(tier)
+    );
+    let batch = orch::run_engine(&e, seed, tier, count, orch::WORKERS);
+    let mut harness_errors = batch.harness_errors.clone();
+    let selftest = if batch.violations.is_empty() && harness_errors.is_empty() {
+        match determinism_selftest(&e, seed, tier, &batch, 48) {
+            Ok(n) => n,
+            Err(m) => {
+                harness_errors.push(m);
+                0
+            }
+        }
+    } else {
+        0
+    };
+    let violations = batch.violations.clone();
+    let nviol = violations.len();
+    let verdict = orch::conclude("C17", violations, &harness_errors);
+    let acc = &batch.acc;
+    let wall = t0.elapsed().as_secs_f64();
+    let sessions = get(acc, "sessions");
+    let nontrivial = acc.distinct.get("nontrivial_cases").map(|s| s.len()).unwrap_or(0);
+    let mut warnings: Vec<String> = Vec::new();
+    for p in ["probe_lines_run_after_a_failed_line", "probe_heap_value_on_later_line", "probe_injected_failure_inside_a_call", "probe_injected_failure_with_pending_operands", "fault_parse_failure", "fault_compile_failure", "fault_runtime_failure", "fault_injected_failure_fired"] {
+        if get(acc, p) == 0 {
+            warnings.push(format!("probe {} stayed at zero", p));
+        }
+    }
+    for w in &warnings {
+        println!("WARNING: {}", w);
+    }
+    let ev = json!({
+        "property_id": "C17",
+        "tier": tier.name(),
+        "seed": seed,
+        "level": "fault_enumeration",
+        "coverage": {
+            "evaluations": sessions,
+            "distinct_nontrivial": nontrivial,
+            "rule": format!("one retained Compiler+VM pair is driven line by line; every line is compared with eval (same build, fresh state) of the single program made of all completed earlier statements plus that line (value when the line ends in an expression statement, output, error kind and message); after a failing line the model keeps exactly the statements (or, for an injected failure, the top-level assignments counted by the step hook) that completed. Sessions: {} directed, COMPLETE enumeration of all sessions of length {} over an alphabet of {} line templates (declarations, assignments, reads, element assignments, loops, self-contained functions, parse / compile / run-time failures) each additionally with a failure injected at EVERY instruction k of every injectable line and once more with a collection at every instruction boundary, and seeded random sessions of 2-12 lines (10-50% failing lines, failures injected at seeded k, allocator modes plain/poison/move). A session is non-trivial when at least one line ran after a failed line; distinct = distinct event-log hash.", crate::engine_session::DIRECTED, if tier == Tier::Quick { "1-2" } else { "1-3" }, crate::engine_session::ALPHABET),
+            "samples": acc.samples,
+            "exhaustive": false,
+            "exhaustive_note": "complete over the stated line alphabet and session length and over all injection points of those sessions; random sessions are sampled",
+            "sessions": sessions,
+            "lines": get(acc, "lines"),
+            "simulated_steps": get(acc, "sim_steps"),
+            "runs_per_hour": (sessions as f64 / wall * 3600.0) as u64,
+            "seeds_per_hour": (count as f64 / wall * 3600.0) as u64,
+            "faults_fired": faults_json(acc),
+            "probes": probes_json(acc),
+            "distinct_states": distinct_json(acc),
+            "distinct_state_measure": "session skeletons (sequence of line kinds incl. failure kinds) x injected-failure state (frame depth, pending-operand bucket, top-level assignments completed)",
+            "counters": counters_json(acc),
+            "determinism_selftest_scenarios_compared": selftest,
+            "components": orch::components(),
+            "warnings": warnings,
+            "candidate_violations": nviol,
+            "known_findings_matched": verdict.known,
+        },
+        "assumptions": [
+            "the reference is the same build's eval of the concatenated program: the check is blind to consistent wrongness by design and sensitive only to what retention and failure do",
+            "lines that receive an injected failure consist of atomic-effect statements (DESIGN.md 4.2); lines with progressive effects are not injected (except the alphabet's loop template, whose partial state is modelled exactly)",
+            "later lines never call functions defined on earlier lines and never reference a name declared by the uncompleted part of a failed line (the property's quantifier excludes both)"
+        ],
+        "wall_s": wall,
+        "violations": verdict.reported,
+    });
+    orch::write_evidence("C17", &ev);
+    println!(
+        "C17: {} sessions, {} lines, {} steps, {} lines after a failed line, {} distinct non-trivial, {} violation(s), {} known, {:.1}s",
+        sessions, get(acc, "lines"), get(acc, "sim_steps"), get(acc, "probe_lines_run_after_a_failed_line"), nontrivial, verdict.reported, verdict.known, wall
+    );
+    verdict.exit
+}
